@@ -1,18 +1,59 @@
 (* C01 — Static extraction is faithful to the source.
-   Property theorems only: each closed by [exact] of a lemma from Proofs/, followed by Print Assumptions. *)
+   Property theorems only: each closed by [exact] of a lemma from Proofs/, followed by Print Assumptions.
+
+   Reading guide.  [run_visit] is the visitor machine: frame stack (Visitor.current and its parents), mutable
+   type_guarded flag saved/restored by visit_if, emitted extension events, sticky Python error.  [spec_module] /
+   [sem_stmt] is the recursive level semantics (no stack, the guard flag is an inherited attribute).
+   [level_bindings_list k path g pk body] lists, declaratively and in source order, the bindings a module/class level
+   makes (name, reported first line, kind, "conditional re-assignment" flag, type-guarded flag); [first_names] is
+   first-occurrence order, [survivor] Griffe's tie-break (a later binding wins, except that an attribute assignment
+   directly inside an `if`/`except` does not displace an existing member). *)
 From Coq Require Import List ZArith String Bool Arith.
 From Verif Require Import Lib.Sexp Model.C01_base Gen.C01_tables Model.C01_visitor Proofs.C01_visitor Proofs.C01_vis.
 Import ListNotations.
 Open Scope string_scope. Open Scope list_scope. Open Scope nat_scope.
 
-(* The visitor machine (frame stack = Visitor.current and its parents, mutable type_guarded flag saved/restored by
-   visit_if, sticky Python error) computes, for every statement list, exactly the recursive level semantics in which the
-   type-guard flag is an inherited attribute (true exactly inside the body -- not the else branch -- of a module- or
-   class-level `if TYPE_CHECKING`), a class body is evaluated on a fresh frame and attached to the class object, and
-   instance attributes of an __init__ body go to the enclosing class. *)
+(* The machine computes exactly the level semantics, for every statement list: the flag set by visit_if is in force
+   exactly in the body (not the else branch) of a module-/class-level `if TYPE_CHECKING`, is restored afterwards, and
+   members/instance attributes are attached to the right parent.  (The pre-fix visit_if, which reset the flag to False
+   after any nested `if` and kept it for `else`, does not satisfy this equation.) *)
 Theorem C01_type_guard_flag : forall mname body, run_visit mname body = spec_module mname body.
 Proof. exact machine_computes_level_semantics. Qed.
 Print Assumptions C01_type_guard_flag.
+
+(* Members of the module = the names bound at module level, once each, in order of first binding. *)
+Theorem C01_one_member_per_bound_name : forall mname body r,
+  run_visit mname body = Ok r ->
+  map fst (r_members r) = first_names [] (level_bindings_list InModule mname false PScope body).
+Proof. exact one_member_per_bound_name. Qed.
+Print Assumptions C01_one_member_per_bound_name.
+
+(* ... and the same at every nesting level: whenever a class statement is evaluated (in any scope, at any depth, under
+   any guard), the object it binds is a class whose members are the names bound in that class body (instance attributes
+   of its __init__ included), once each, in order of first binding. *)
+Theorem C01_one_member_per_bound_name_nested : forall g pk nd ln dln eln name ds body own up,
+  exists o, lookup name (fmembers (l_own (sem_stmt g pk nd (SCls ln dln eln name ds body) own up))) = Some o /\
+            ikind (oinfo o) = KCls /\
+            map fst (omembers o) = first_names [] (level_bindings_list InClass (child_path own name) g PScope body).
+Proof. exact class_members_bound_names. Qed.
+Print Assumptions C01_one_member_per_bound_name_nested.
+
+(* Kind, reported first line and runtime flag of each member are those of the surviving binding (accessor-decorated
+   definitions x.setter / x.deleter are C02's subject and excluded). *)
+Theorem C01_surviving_kind : forall mname body r n,
+  has_accessor_list body = false -> run_visit mname body = Ok r ->
+  option_map osum (lookup n (r_members r)) =
+  option_map bsum (survivor n None (level_bindings_list InModule mname false PScope body)).
+Proof. exact surviving_kind. Qed.
+Print Assumptions C01_surviving_kind.
+
+Theorem C01_surviving_kind_nested : forall g pk nd ln dln eln name ds body own up n,
+  has_accessor_list body = false ->
+  exists o, lookup name (fmembers (l_own (sem_stmt g pk nd (SCls ln dln eln name ds body) own up))) = Some o /\
+            option_map osum (lookup n (omembers o)) =
+            option_map bsum (survivor n None (level_bindings_list InClass (child_path own name) g PScope body)).
+Proof. exact class_surviving_kind. Qed.
+Print Assumptions C01_surviving_kind_nested.
 
 (* No Python error for any statement list, except exactly when an @overload definition sits directly in the body of a
    class's __init__ (finding C01-F1); then the result is the TypeError the implementation raises. *)
@@ -23,7 +64,7 @@ Proof. exact visit_total_exact. Qed.
 Print Assumptions C01_visit_total_modulo_known.
 
 Theorem C01_visit_total_refuted : exists body, run_visit "m" body = Err "TypeError".
-Proof. exists overload_in_init_witness. exact visit_total_refuted. Qed.
+Proof. exact visit_total_refuted_ex. Qed.
 Print Assumptions C01_visit_total_refuted.
 
 (* Every extension trace is well bracketed: the module/class instance event opens a bracket, its members event closes
@@ -34,25 +75,34 @@ Theorem C01_events_well_bracketed : forall mname body r,
 Proof. exact events_well_bracketed. Qed.
 Print Assumptions C01_events_well_bracketed.
 
-(* Visibility: the ladders regenerated from mixins.py agree with the documented table on every input. *)
+(* Attribute docstrings: the faithful model reproduces two defects (findings F2, F3). *)
+Theorem C01_attribute_docstring_refuted :
+  member_doc "m" doc_else_witness "x" = Some (Some 4) /\
+  member_doc "m" chained_leak_witness "y" = Some (Some 2).
+Proof. exact attribute_docstring_refuted. Qed.
+Print Assumptions C01_attribute_docstring_refuted.
+
+(* A name bound only by @overload definitions yields no member (finding F6). *)
+Theorem C01_overload_only_refuted : exists r, run_visit "m" overload_only_witness = Ok r /\ r_members r = [].
+Proof. exact overload_only_refuted. Qed.
+Print Assumptions C01_overload_only_refuted.
+
+(* Visibility: the ladders regenerated from mixins.py agree with the documented table on every input
+   (finite domain: 3 * 2^10 * 5 inputs, by reflection), modulo findings F4 (empty __all__) and F5 (no parent). *)
 Theorem C01_visibility_table_names : forall i,
   is_special i = Some (doc_is_special i) /\ is_private i = Some (doc_is_private i) /\
   is_class_private i = Some (doc_is_class_private i) /\ is_imported i = Some (doc_is_imported i).
-Proof. intro i. repeat split. exact (vis_special i). exact (vis_private i). exact (vis_class_private i). exact (vis_imported i). Qed.
+Proof. exact visibility_table_names. Qed.
 Print Assumptions C01_visibility_table_names.
 
 Theorem C01_visibility_table_modulo_known : forall i, vin_consistent i = true ->
   (gap_no_parent i = false -> is_exported i = Some (doc_is_exported i) /\ is_wildcard_exposed i = Some (doc_is_wildcard_exposed i)) /\
   (gap_empty_all i = false -> is_public i = Some (doc_is_public i)).
-Proof.
-  intros i Hc. split; intros Hg.
-  - split. exact (vis_exported_modulo_known i Hc Hg). exact (vis_wildcard_modulo_known i Hc Hg).
-  - exact (vis_public_modulo_known i Hc Hg).
-Qed.
+Proof. exact visibility_table_modulo_known. Qed.
 Print Assumptions C01_visibility_table_modulo_known.
 
 Theorem C01_visibility_table_refuted :
   (exists i, vin_consistent i = true /\ is_exported i = None /\ is_wildcard_exposed i = None) /\
   (exists i, vin_consistent i = true /\ is_public i = Some true /\ doc_is_public i = false).
-Proof. split. exists root_module_vin. exact vis_exported_refuted. exists empty_all_vin. exact vis_public_refuted. Qed.
+Proof. exact visibility_table_refuted. Qed.
 Print Assumptions C01_visibility_table_refuted.
